@@ -132,6 +132,19 @@ func (x *fnExec) doCall(st *State, site ssa.Instruction, call *ssa.CallCommon, m
 		}
 	}
 	if c == nil {
+		if ci, ok := site.(*ssa.Call); ok && mode == "call" && callee != nil && len(st.inline) < 2 && x.inlinable(callee, st) {
+			// a repository function without contract, without loops, defers, go statements or channel operations: executed
+			// inline (as if its body stood at the call site) instead of being treated as an unknown call
+			v.note("%s: call of %s has no contract: its loop-free body is executed inline", x.fnName(), name)
+			for k, p := range callee.Params {
+				if k < len(args) {
+					st.vals[p] = args[k]
+				}
+			}
+			st.inline = append(st.inline[:len(st.inline):len(st.inline)], ci)
+			x.execBlock(st, callee.Blocks[0], nil)
+			return nil, false
+		}
 		return x.unknownCall(st, name, sig, mode), true
 	}
 	c.Used = true
@@ -575,4 +588,44 @@ func (x *fnExec) checkEffects(st *State, site ssa.Instruction) {
 		g := x.evalClause(st, c, e)
 		x.emit(st, fmt.Sprintf("effects.%s@%s#%d", e.Label, name, ord), "effects", e.Label, e.Props, g, e.Src)
 	}
+}
+
+// inlinable: may a contract-less callee be executed inline? (repository code, has a body, no loops, no defers, no go,
+// no select/send/receive, not recursive with respect to the current inline stack)
+func (x *fnExec) inlinable(callee *ssa.Function, st *State) bool {
+	if callee == x.fn || len(callee.Blocks) == 0 || len(callee.FreeVars) > 0 {
+		return false
+	}
+	pkg := fnPkg(callee)
+	if pkg == nil || !x.v.isRepoPkg(pkg.Pkg.Path()) {
+		return false
+	}
+	for _, c := range st.inline {
+		if c.Call.StaticCallee() == callee {
+			return false
+		}
+	}
+	if r, ok := x.v.inlinableCache[callee]; ok {
+		return r
+	}
+	ok := true
+	tmp := &fnExec{v: x.v, fn: callee, loops: map[*ssa.BasicBlock]*loopInfo{}}
+	tmp.findLoops()
+	if len(tmp.loops) > 0 {
+		ok = false
+	}
+	for _, b := range callee.Blocks {
+		for _, in := range b.Instrs {
+			switch u := in.(type) {
+			case *ssa.Defer, *ssa.RunDefers, *ssa.Go, *ssa.Select, *ssa.Send, *ssa.MakeClosure, *ssa.Range, *ssa.Next:
+				ok = false
+			case *ssa.UnOp:
+				if u.Op == token.ARROW {
+					ok = false
+				}
+			}
+		}
+	}
+	x.v.inlinableCache[callee] = ok
+	return ok
 }
